@@ -8,6 +8,7 @@ import Cicada.Spec.C01
 import Cicada.Spec.C10
 import Cicada.Spec.C12
 import Cicada.Spec.C19
+import Cicada.Spec.C13
 /-!
 `cicada_model` — runs the Lean model (the very definitions the theorems are about) and the
 reference semantics on the cases of the correspondence protocol.
@@ -201,6 +202,17 @@ def altsChars : C12.Alts → List Char
   | .more w r => wordChars w ++ altsChars r
 end
 
+def parseDeliveries (s : String) : List C13.Delivery :=
+  if s = "[]" then [] else
+  (s.splitOn ",").filterMap (fun p => match p.splitOn ":" with
+    | [f, n, q] =>
+      let form : Option C13.Form := match f with
+        | "v" => some .var | "b" => some .braced | "p" => some .dollarParen | "q" => some .backquote | _ => none
+      form.map (fun fm => { form := fm, name := unhex n, dq := q = "1" })
+    | _ => none)
+
+def c13ValueOk (v : Str) : Bool := (matchBackquote v).isNone && !shouldDoDollar v
+
 def answer (stream : String) (f : Array String) : Ans :=
   let g (i : Nat) : String := f.getD i "-"
   match stream with
@@ -333,6 +345,24 @@ def answer (stream : String) (f : Array String) : Ans :=
       { a with s := if cls.startsWith "outside-statement" then "-" else obsOut (C01.expectedObs p args ctx),
                guard := if C01.guard es.env p args then "1" else "0",
                cls := cls }
+    else if g 2 = "c13" then
+      let p := unhex (g 3)
+      let ds := parseDeliveries (g 4)
+      let se := es.subst
+      if C13.renderCmd p ds ≠ line then { a with s := "RENDER-MISMATCH" } else
+      let allDq := ds.all (·.dq)
+      let isVar (d : C13.Delivery) : Bool := d.form = .var || d.form = .braced
+      let varsOk := ds.all (fun d => !isVar d || c13ValueOk (d.value se))
+      let spec : String :=
+        if allDq then obsOut { stages := [(p :: ds.map (·.value se), [], none)], envs := [], background := false }
+        else "shape|1|[]|[]|0|[]"
+      let guard := allDq && ds.all isVar && varsOk
+      let cls : String :=
+        if guard then "-"
+        else if !varsOk then "value-substitution"
+        else if !allDq then "unquoted-delivery"
+        else "dq-command-substitution"
+      { a with s := spec, guard := if guard then "1" else "0", cls := cls }
     else a
   | "globneeds" =>
     -- which patterns will `expand_glob` hand to the glob crate for this case (f2: line | line1 | tokens)
